@@ -268,7 +268,11 @@ def all_patterns(fn):
 
 
 def _used(e):
-    return {x['p']['hid'] for x, _ in hir_walk(e) if x['k'] == 'path' and x['p'].get('res') == 'local'}
+    u = {x['p']['hid'] for x, _ in hir_walk(e) if x['k'] == 'path' and x['p'].get('res') == 'local'}
+    # a branch that builds an error uses the cursor for the error's span only: nothing is consumed on it
+    if any(x['k'] == 'call' and variant_of(x['f']) == 'Err' for x, _ in hir_walk(e)):
+        u.add('__err__')
+    return u
 
 
 def _branch_paths(e, cap=64):
@@ -360,6 +364,8 @@ def r2_no_discard(c, facts):
         # keeps the cursor past a token it drops on the inner else branch)
         for cur_h, mat_h, scope in _pair_scopes(fn):
             for path in _branch_paths(scope):
+                if '__err__' in path:
+                    continue
                 if (cur_h & path) and not (mat_h & path):
                     c.bad(R, '%s:match-discarded-on-a-branch' % q, '%s goes on with the cursor of a successful sub-parser on a branch that drops its token/node: the consumed input is not a leaf of the tree (%s)' % (q, fn.loc()))
                     break
